@@ -388,6 +388,20 @@ func genC13Cases(env *Env, r *Rand, n int, full bool) []Case {
 		add("directive", wrap(d))
 		add("directive", d)
 	}
+	// names that are declared GLOBAL / EXTERN and defined by an EQU of every kind of body, in both output formats
+	for _, body := range []string{"5", "-1", "0x12345678", "deflabel", "deflabel+8", "nolabel", "nolabel-4", "$", "$+2", "AX", "EAX", "ES", "[BX]", "BYTE [SI+4]", "[deflabel]", "\"hi\"", "'c'", "8:16", "DWORD 8:16", "X2*2", "(1+2)*3", "1/0", "X1", ""} {
+		for _, decl := range []string{"\tGLOBAL X1\nX1\tEQU\t%s\n", "X1\tEQU\t%s\n\tGLOBAL X1\n", "\tEXTERN X1\nX1\tEQU\t%s\n", "\tGLOBAL X1, deflabel\nX1\tEQU\t%s\nX1:\n", "\tGLOBAL X1\nX1\tEQU\t%s\n\tMOV AX,X1\n\tDW X1\n"} {
+			for _, fmtLine := range []string{"", "[FORMAT \"WCOFF\"]\n[BITS 32]\n"} {
+				add("global-of-equ", fmtLine+"X2\tEQU\t3\n"+wrap(strings.TrimSuffix(fmt.Sprintf(decl, body), "\n")))
+			}
+		}
+	}
+	for _, g := range []string{"AX", "EAX", "BYTE", "MOV", "DB", "$", "5", "\"s\"", "[BX]", "deflabel+1", "a b", "a,", ",a", "deflabel, deflabel", "_a.b", "..", "K EQU 5"} {
+		for _, kw := range []string{"GLOBAL", "EXTERN"} {
+			add("global-operand", "[FORMAT \"WCOFF\"]\n[BITS 32]\n"+wrap("\t"+kw+" "+g))
+			add("global-operand", wrap("\t"+kw+" "+g))
+		}
+	}
 	// (a) random byte strings
 	for i := 0; i < n/6; i++ {
 		l := r.Range(0, 200)
